@@ -58,6 +58,8 @@ func Generated() []Prog {
 		"module Mone\n  include Mtwo\n  def aa\n    @w\n  end\nend\nmodule Mtwo\n  include Mone\n  def bb\n    1\n  end\nend\nclass Cyc\n  include Mone\nend\nc = Cyc.new\nc.aa\nc.zork\n",
 		"class Cya\n  include Mcy\n  def aa\n    1\n  end\nend\nmodule Mcy\n  include Cya\n  def bb\n    @q\n  end\nend\nCya.new.bb\nCya.new.zork\n",
 		"class Cyx < Cyy\n  def aa\n    1\n  end\nend\nclass Cyy < Cyx\nend\nCyx.new.aa\nCyy.new.zork\n",
+		// string literals between index brackets on untyped / union / unknown receivers
+		"def fetch_it(params, key)\n  v = params[\"user name\"]\n  w = params[key + \" suffix\"]\n  w\nend\nfetch_it(1, \"k\")\nun = true ? [1] : {b: 2}\nun[\"idx key\"]\nun.after_idx\nzork_undefined[\"str key\"]\n1.after_index\n",
 		// blocks whose parameters are observable, on a union receiver, on merge!, and after an undefined method
 		"cc = 1\nur = cc == 1 ? [1, 2] : {a: \"s\"}\ncc.to_s\nur.each { |v| dbtp v }\ncc.to_s\nur.each do |w|\n  dbtp w\nend\n",
 		"hm = {a: 1}\ngm = {b: 2}\nhm.size\nhm.merge!(gm) { |k, x, y| dbtp x }\nhm.size\nhm.each { |kk, vv| dbtp vv }\n",
